@@ -115,6 +115,25 @@ CLAIMS['C13'] = dict(
          "once and re-initialises the source. That reverse / sort / merge produce the right order is NOT decided.",
     technique="documentation-contract rule (AST + IR return values) + field-effect rule + dominating facts + typestate over LLVM IR")
 
+CLAIMS['C01'] = dict(
+    text="Decides structural necessary conditions on every path of the code as written: (W1) the recursive walker gives each node "
+         "exactly LEAF, or PRE [first subtree] MID [second subtree] POST with a subtree walked iff the child is non-NULL, and stops at "
+         "and returns the first non-zero result (path-sensitive typestate; the suite never returns non-zero from a visit); (W2) "
+         "foreach binds (left,right) for FWD and (right,left) for REV and returns the walker's result, the adapter forwards "
+         "element/order/result unchanged; (W3) size is written only as 0 or size+/-1, exactly once per insert/unlink path; (W4) insert "
+         "and find agree on comparison argument order and descent direction; (W5) erase unlinks exactly the node find returned, only "
+         "when non-NULL, and returns it; (W6) a non-NULL find result is the node that compared equal. That relinking in the two-child "
+         "erase case and in rotations preserves the multiset and the order is NOT decided (heap-shape reasoning).",
+    technique="path-sensitive typestate over the recursive walker + sibling agreement + dominating facts over LLVM IR")
+CLAIMS['C15'] = dict(
+    text="Decides, on every feasible path of the code as written: (K1) after the callback received an element nothing is read or "
+         "written through its node (slist/dlist clear, tree walker after POST/LEAF and after recursing into a child, tree/map/hash "
+         "clear adapters; the map node is freed only after the callback, which sees a detached iterator); (K2) every node gets exactly "
+         "one hand-off (walker protocol; the tree adapter calls back exactly for POST/LEAF and returns 0 for every order; list loops "
+         "hand off once per iteration); (K3) clear re-establishes the initial state (trees incl. rbtree/heap/map through their "
+         "wrappers, slist via the initialiser's stores, dlist via a drain loop that exits only under size == 0).",
+    technique="path-sensitive typestate (hand-off state, walker protocol) + dominance + init/clear sibling agreement over LLVM IR")
+
 NA = {
     'C02': "inductive colour/black-height invariant over an unbounded pointer structure; needs shape/separation reasoning that no static analyser available here provides (DESIGN.md 4/C02)",
     'C07': "heap order and completeness are inductive invariants tying pointer shape to size arithmetic; not expressible as dataflow/typestate/effects (DESIGN.md 4/C07)",
